@@ -1626,6 +1626,13 @@ class Interp:
             if gname not in cenv:
                 raise EngineError(f'call to {c.key}: ghost parameter {gname} has no witness in the caller')
             env[gname] = cenv[gname]
+        # free variables of a nested function under contract: their values at the call (the caller's variables)
+        for cname in (getattr(c, 'closure_env', None) or {}):
+            if cname not in env:
+                cenv = self.spec_env(fr)
+                if cname not in cenv:
+                    raise EngineError(f'call to {c.key}: closure variable {cname} is not bound in the caller')
+                env[cname] = cenv[cname]
         for lab, req in c.requires:
             self.prove(f'{site}.{lab}', self.spec_bool(req, env), where=where)
         selfv = env.get('self')
